@@ -468,7 +468,8 @@ func (h *recHub) handlerCalls() []recCall {
 	defer h.mu.Unlock()
 	var out []recCall
 	for _, c := range h.calls {
-		if !c.Exist {
+		// periodic rollback calls of the rollback manager are not client requests
+		if !c.Exist && c.Op != logical.RollbackOperation {
 			out = append(out, c)
 		}
 	}
@@ -480,7 +481,7 @@ func (h *recHub) callCount() int {
 	defer h.mu.Unlock()
 	n := 0
 	for _, c := range h.calls {
-		if !c.Exist && !c.Revoke && !c.Renew {
+		if !c.Exist && !c.Revoke && !c.Renew && c.Op != logical.RollbackOperation {
 			n++
 		}
 	}
